@@ -224,6 +224,8 @@ var c04Aggs = []aggSpec{
 	{"max", "vf", "xf", model.Float},
 	{"min", "vf", "nf", model.Float},
 	{"sum", "vn", "sn", model.Float},
+	{"max", "vn", "xn", model.Float}, // with NaN cells at varying positions of the group
+	{"min", "vn", "nn", model.Float},
 	{"majority", "vb", "mb", model.Bool},
 	{"join", "vs", "js", model.String},
 	{"join", "ve", "je", model.String},
@@ -254,12 +256,22 @@ func sortedRowStrings(f model.Frame, keyCols int) []string {
 }
 
 func groupbyFns(c groupCase) []groupby.ConfigFunc {
+	return groupbyFnsWith(c, c.GroupNull)
+}
+
+// groupbyFnsWith: the options in either order (cases on odd-numbered index shapes give Null first: the order
+// of options must not matter); an explicit Null(false) on shapes 2 and 3.
+func groupbyFnsWith(c groupCase, groupNull bool) []groupby.ConfigFunc {
 	var fns []groupby.ConfigFunc
+	nullFirst := c.Shape%2 == 1
+	if nullFirst && (groupNull || c.Shape == 3) {
+		fns = append(fns, groupby.Null(groupNull))
+	}
 	if !c.ByDefault {
 		fns = append(fns, groupby.Columns(c.By...))
 	}
-	if c.GroupNull {
-		fns = append(fns, groupby.Null(true))
+	if !nullFirst && (groupNull || c.Shape == 2) {
+		fns = append(fns, groupby.Null(groupNull))
 	}
 	return fns
 }
@@ -293,6 +305,12 @@ func runGroupCase(c groupCase) *core.Failure {
 	primer := qframe.New(map[string]interface{}{"p": []float64{math.NaN(), math.NaN(), 1}, "q": []int{1, 1, 1}})
 	primer.GroupBy(groupby.Columns("p"), groupby.Null(!c.GroupNull))
 	primer.Distinct(groupby.Columns("q", "p"), groupby.Null(!c.GroupNull))
+	if c.Shape%2 == 1 {
+		// ... and on THIS frame, the same grouping with the opposite Null setting first (whatever a column
+		// or frame remembers from one call must not leak into the next)
+		qf.Distinct(groupbyFnsWith(c, !c.GroupNull)...)
+		qf.GroupBy(groupbyFnsWith(c, !c.GroupNull)...)
+	}
 	var fail *core.Failure
 	if c.Op == "distinct" {
 		fail = checkDistinct(c, qf, in, by, groups)
@@ -865,7 +883,7 @@ func init() {
 		ID:    "C04",
 		Level: "model_checking",
 		Rule: "case = (key pattern as restricted-growth string with nulls, hash value per key / per ungrouped null row, Null option, physical layout) for the table layer; " +
-			"(frame over per-type alphabets, key column selection and order, Null option, index shape) for the API layer, each with 17 aggregations incl. recording user functions and the library's StrJoin and QFrames(). " +
+			"(frame over per-type alphabets, key column selection and order, Null option, index shape) for the API layer, each with 19 aggregations incl. recording user functions and the library's StrJoin and QFrames(). " +
 			"Non-trivial = two different keys share a bucket (table layer) / more than one group and fewer groups than rows (API layer); distinct by case content.",
 		Assumptions: common,
 		Bound: map[string]string{
